@@ -7,6 +7,7 @@ Driver for C12. One op per line, state = `PB.Api.St` (reset by a `#` line).
   cfgchange                another "config change" event
   dev 0|1                  set core/devMode
   authset 0|1              authenticator registered?
+  storm 0|1                harness-only scheduling aid (no effect on the model)
   adv <d>                  the clock advances d seconds
   clean                    session cleaner
   logout <id>              auth/reset for that session
@@ -135,6 +136,11 @@ def stepLine (st : St) (line : String) : St × String :=
       let pre := { st with dev := b }
       let post := updateAPIKeys pre
       (post, showImport pre post)
+    | none => (st, "bad-op")
+  | ["storm", b] =>
+    -- scheduling aid of the harness (slows down config.SaveConfig); no effect on the model
+    match parseBool? b with
+    | some _ => (st, "ok")
     | none => (st, "bad-op")
   | ["authset", b] =>
     match parseBool? b with
